@@ -142,6 +142,7 @@ class VizierServicer(vizier_service_pb2_grpc.VizierServiceServicer):
         study_pb2.Study.State.STATE_UNSPECIFIED,
     )
 
+  @grpc_util.translate_datastore_errors
   def CreateStudy(
       self,
       request: vizier_service_pb2.CreateStudyRequest,
@@ -205,6 +206,7 @@ class VizierServicer(vizier_service_pb2_grpc.VizierServiceServicer):
       self.datastore.create_study(study)
     return study
 
+  @grpc_util.translate_datastore_errors
   def GetStudy(
       self,
       request: vizier_service_pb2.GetStudyRequest,
@@ -213,6 +215,7 @@ class VizierServicer(vizier_service_pb2_grpc.VizierServiceServicer):
     """Gets a Study by name. If the study does not exist, return error."""
     return self.datastore.load_study(request.name)
 
+  @grpc_util.translate_datastore_errors
   def ListStudies(
       self,
       request: vizier_service_pb2.ListStudiesRequest,
@@ -222,6 +225,7 @@ class VizierServicer(vizier_service_pb2_grpc.VizierServiceServicer):
     studies = self.datastore.list_studies(request.parent)
     return vizier_service_pb2.ListStudiesResponse(studies=studies)
 
+  @grpc_util.translate_datastore_errors
   def DeleteStudy(
       self,
       request: vizier_service_pb2.DeleteStudyRequest,
@@ -235,6 +239,7 @@ class VizierServicer(vizier_service_pb2_grpc.VizierServiceServicer):
         self.datastore.delete_study(request.name)
     return empty_pb2.Empty()
 
+  @grpc_util.translate_datastore_errors
   def SetStudyState(
       self,
       request: vizier_service_pb2.SetStudyStateRequest,
@@ -246,6 +251,7 @@ class VizierServicer(vizier_service_pb2_grpc.VizierServiceServicer):
       self.datastore.update_study(study)
     return study
 
+  @grpc_util.translate_datastore_errors
   def SuggestTrials(
       self,
       request: vizier_service_pb2.SuggestTrialsRequest,
@@ -492,6 +498,7 @@ class VizierServicer(vizier_service_pb2_grpc.VizierServiceServicer):
       self.datastore.update_suggestion_operation(output_op)
       return output_op
 
+  @grpc_util.translate_datastore_errors
   def GetOperation(
       self,
       request: operations_pb2.GetOperationRequest,
@@ -500,6 +507,7 @@ class VizierServicer(vizier_service_pb2_grpc.VizierServiceServicer):
     """Gets the latest state of a SuggestTrials() long-running operation."""
     return self.datastore.get_suggestion_operation(request.name)
 
+  @grpc_util.translate_datastore_errors
   def CreateTrial(
       self,
       request: vizier_service_pb2.CreateTrialRequest,
@@ -526,6 +534,7 @@ class VizierServicer(vizier_service_pb2_grpc.VizierServiceServicer):
       self.datastore.create_trial(trial)
     return trial
 
+  @grpc_util.translate_datastore_errors
   def GetTrial(
       self,
       request: vizier_service_pb2.GetTrialRequest,
@@ -534,6 +543,7 @@ class VizierServicer(vizier_service_pb2_grpc.VizierServiceServicer):
     """Gets a Trial."""
     return self.datastore.get_trial(request.name)
 
+  @grpc_util.translate_datastore_errors
   def ListTrials(
       self,
       request: vizier_service_pb2.ListTrialsRequest,
@@ -543,6 +553,7 @@ class VizierServicer(vizier_service_pb2_grpc.VizierServiceServicer):
     list_of_trials = self.datastore.list_trials(request.parent)
     return vizier_service_pb2.ListTrialsResponse(trials=list_of_trials)
 
+  @grpc_util.translate_datastore_errors
   def AddTrialMeasurement(
       self,
       request: vizier_service_pb2.AddTrialMeasurementRequest,
@@ -590,6 +601,7 @@ class VizierServicer(vizier_service_pb2_grpc.VizierServiceServicer):
 
   # TODO: Auto selection defaults to the last measurement.
   # Add support for "best measurement" behavior.
+  @grpc_util.translate_datastore_errors
   def CompleteTrial(
       self,
       request: vizier_service_pb2.CompleteTrialRequest,
@@ -636,6 +648,7 @@ class VizierServicer(vizier_service_pb2_grpc.VizierServiceServicer):
       self.datastore.update_trial(trial)
     return trial
 
+  @grpc_util.translate_datastore_errors
   def DeleteTrial(
       self,
       request: vizier_service_pb2.DeleteTrialRequest,
@@ -654,6 +667,7 @@ class VizierServicer(vizier_service_pb2_grpc.VizierServiceServicer):
     return empty_pb2.Empty()
 
   # TODO: This currently uses the same algorithm as suggestion.
+  @grpc_util.translate_datastore_errors
   def CheckTrialEarlyStoppingState(
       self,
       request: vizier_service_pb2.CheckTrialEarlyStoppingStateRequest,
@@ -871,6 +885,7 @@ class VizierServicer(vizier_service_pb2_grpc.VizierServiceServicer):
           should_stop=output_operation.should_stop
       )
 
+  @grpc_util.translate_datastore_errors
   def StopTrial(
       self,
       request: vizier_service_pb2.StopTrialRequest,
@@ -916,6 +931,7 @@ class VizierServicer(vizier_service_pb2_grpc.VizierServiceServicer):
         grpc_util.handle_exception(e, context)
     return trial
 
+  @grpc_util.translate_datastore_errors
   def ListOptimalTrials(
       self,
       request: vizier_service_pb2.ListOptimalTrialsRequest,
@@ -986,6 +1002,7 @@ class VizierServicer(vizier_service_pb2_grpc.VizierServiceServicer):
         optimal_trials=optimal_trials
     )
 
+  @grpc_util.translate_datastore_errors
   def UpdateMetadata(
       self,
       request: vizier_service_pb2.UpdateMetadataRequest,
